@@ -63,7 +63,9 @@ func (x *c18Exec) call(fr *c18Frame, call *ast.CallExpr) c18Val {
 		case c18KSlice, c18KNil:
 			return c18Val{k: c18KInt, i: int64(len(v.elems))}
 		case c18KTags:
-			x.readViolation(call, "the number of tags takes part in the classification")
+			// only emptiness is decided: the tag set is empty (witness), or has at least one tag (a modelled tag
+			// is present, or unrelated tags are); any other use of the count is "depends on the length"
+			return c18Val{k: c18KInt, i: int64(len(x.tagList(v)))} // the witness list
 		}
 		return c18Unk("`%s` is not modelled", x.src(call))
 	case "panic":
